@@ -205,8 +205,14 @@ def main(argv=None):
     ap.add_argument("--no-evidence", action="store_true")
     args = ap.parse_args(argv)
     prop = args.property.upper()
+    from simkit import perf
+    perf.install()          # speed only; see simkit/chunkcache.c
     check = load_check(prop)
 
+    if hasattr(check, "prepare"):
+        import atexit
+        check.prepare()
+        atexit.register(check.cleanup)
     if args.replay:
         return do_replay(check, args.replay)
     if args.one is not None:
